@@ -10,6 +10,7 @@ verdict : EnsembleTrace: each block holds exactly the members its chunk range se
 from __future__ import annotations
 
 import json
+import os
 import random
 
 import numpy as np
@@ -214,6 +215,19 @@ KINDS2 = {
 }
 
 
+def _names_shared(a, b):
+    """some task key occurs in both graphs with different payloads (GraphNames.tla: merged by name, one of them is lost)"""
+    try:
+        from dask.base import tokenize
+        ga, gb = dict(a.__dask_graph__()), dict(b.__dask_graph__())
+        for k in set(ga) & set(gb):
+            if ga[k] is not gb[k] and tokenize(ga[k]) != tokenize(gb[k]):
+                return True
+    except Exception:
+        pass
+    return False
+
+
 def observe(kind, shape, chunks):
     from abtem.core.chunks import chunk_ranges
     made = (KINDS1 if len(shape) == 1 else KINDS2)[kind](list(shape))
@@ -221,7 +235,7 @@ def observe(kind, shape, chunks):
     prod_fn = made[2] if len(made) > 2 else (lambda o: True)
     it = Intern()
     ev = {"kind": kind, "shape": list(shape), "chunks": [list(c) for c in chunks], "raised": False, "members": [],
-          "eager": [], "lazy": [], "product_ok": True}
+          "eager": [], "lazy": [], "product_ok": True, "names_shared": False}
     try:
         ch = tuple(tuple(c) for c in chunks)
         if len(made) > 3:
@@ -248,8 +262,10 @@ def observe(kind, shape, chunks):
         maker = (KINDS1 if len(shape) == 1 else KINDS2)[kind]
         sib = maker(list(shape), 1)[0] if "v" in inspect.signature(maker).parameters else None
         if sib is not None:
-            arr, arr_sib = dask.compute(obj_l.ensemble_blocks(ch), sib.ensemble_blocks(ch), scheduler="synchronous")
-            ev["sibling"] = {"kind": kind, "shape": list(shape), "chunks": [list(c) for c in chunks], "raised": False, "joint_sibling": True,
+            la, lb = obj_l.ensemble_blocks(ch), sib.ensemble_blocks(ch)
+            ev["names_shared"] = _names_shared(la, lb)
+            arr, arr_sib = dask.compute(la, lb, scheduler="synchronous")
+            ev["sibling"] = {"kind": kind, "shape": list(shape), "chunks": [list(c) for c in chunks], "raised": False, "joint_sibling": True, "names_shared": False,
                              "members": [[it(v) for v in ax] for ax in axes_fn(sib)], "eager": [], "lazy": [], "product_ok": True}
             for idx, slics, blk in sib.generate_blocks(ch):
                 b = blk.item() if isinstance(blk, np.ndarray) else blk
@@ -277,7 +293,7 @@ def observe_divide(shape, chunks, lazy_first):
     d = _dist(shape[0], 3)
     it = Intern()
     ev = {"kind": "distribution_divide", "shape": list(shape), "chunks": [list(chunks[0])], "raised": False,
-          "members": [[it(v) for v in _dist_ident(d)]], "eager": [], "lazy": [], "product_ok": True}
+          "members": [[it(v) for v in _dist_ident(d)]], "eager": [], "lazy": [], "product_ok": True, "names_shared": False}
     try:
         from abtem.core.chunks import chunk_ranges
         rng = chunk_ranges((tuple(chunks[0]),))[0]
@@ -305,14 +321,21 @@ def judge(ctx: Ctx, evs):
     res = ctx.validate("EnsembleTrace", [[f] for f, _ in flat], "EnsembleTrace.cfg")
     for (f, e), (ok, bad) in zip(flat, res):
         if not ok:
-            tg = tags_for(e, bad[0][1])
+            clauses = set().union(*[set(cl) for _l, cl in bad])
+            growth = {x for x in clauses if x.startswith("growth_")}
+            if growth and len(ctx.drift) < 20:
+                ctx.drift.append({"clauses": sorted(growth), "kind": e["kind"], "shape": e["shape"], "chunks": e["chunks"],
+                                  "note": "growth (GraphNames.tla): two distinct lazy ensembles share a task name"})
+            if not clauses - growth:
+                continue
+            tg = tags_for(e, sorted(clauses - growth))
             if f.get("joint_sibling"):
                 tg["joint_sibling"] = True
             ctx.report(tg, {"event": {k: v for k, v in e.items() if k != "sibling"}}, f"{e['kind']} shape={e['shape']} chunks={e['chunks']}: {','.join(tg['clauses'])} {e.get('exc', '')}")
 
 
 def self_test(ctx: Ctx):
-    good = {"kind": "x", "shape": [3], "chunks": [[2, 1]], "raised": False, "members": [[7, 8, 9]], "product_ok": True,
+    good = {"kind": "x", "shape": [3], "chunks": [[2, 1]], "raised": False, "members": [[7, 8, 9]], "product_ok": True, "names_shared": False,
             "eager": [{"idx": [1], "axes": [[7, 8]], "slices": [[0, 2]]}, {"idx": [2], "axes": [[9]], "slices": [[2, 3]]}],
             "lazy": [{"idx": [1], "axes": [[7, 8]], "slices": []}, {"idx": [2], "axes": [[9]], "slices": []}]}
     c1 = json.loads(json.dumps(good)); c1["lazy"][1]["axes"] = [[8]]            # a member delivered twice, one lost
@@ -334,6 +357,8 @@ def run(ctx: Ctx):
     r = ctx.design_check("EnsembleModel", cfg_text=CFG.format(n=4 if quick else 5, ranks="{1, 2}"), label="EnsembleModel", workers=1,
                          timeout=3000)
     self_test(ctx)
+    # growth: task identity in merged dask graphs (names derived from every payload field, or unique per creation)
+    ctx.design_check("GraphNames", cfg_text=open(os.path.join(tlc.SPEC_DIR, "GraphNames.cfg")).read(), label="GraphNames (growth)", workers=1, timeout=1200)
     cases = [json.loads(tlc.tla_value_to_py(s)[1]) for s in r.printed("CASE")]
     ctx.notes["cases_from_tlc"] = len(cases)
     rng = random.Random(ctx.seed)
